@@ -74,7 +74,7 @@ def main():
     # demo command: find the destination of the demo file and the go test command in the
     # agent's (free-form) how_to_run.txt and rewrite the agent's worktree path to ours
     how = open(os.path.join(src, "how_to_run.txt")).read()
-    m = re.search(r"/tmp/mut/A\d+", how)
+    m = re.search(r"/tmp/mut/[A-Z]\d+", how)
     agent_wt = m.group(0) if m else "/tmp/mut/AX"
     dests = re.findall(re.escape(agent_wt) + r"/(\S+?_test\.go)", how)
     demos = sorted(f for f in os.listdir(src) if f.endswith("_test.go"))
